@@ -13,8 +13,8 @@ import numpy as np
 from sim import core
 from sim.core import HarnessError
 from sim.kseam import Seam, compiled_call, kernel, same_results
-from sim.mapmodel import (UNIT_CM, Locator, basis_arrays, build_mesh, cell_values, check_basis, direction_arg, gen_direction, gen_mesh,
-                          gen_view, mesh_datagroup, requested_normal, view_kwargs)
+from sim.mapmodel import (UNIT_CM, Locator, basis_arrays, build_mesh, cell_values, check_basis, direction_arg, documented_basis, gen_direction,
+                          gen_mesh, gen_view, mesh_datagroup, requested_normal, view_kwargs)
 from sim.parsim import KernelError, Sim, analyse_dry_run, draw_schedule_config
 
 PROPERTY = "C03"
@@ -318,7 +318,16 @@ def get_basis(case, dg, kw):
     gd = importlib.import_module("osyris.plot.direction").get_direction
     basis = gd(direction=kw["direction"], data=dg.layer("density"), dx=kw.get("dx"), dy=kw.get("dy", kw.get("dx")), origin=kw.get("origin"))
     nuv = basis_arrays(basis, 3)
-    return nuv, check_basis(*nuv, want_normal=requested_normal(case["direction"]))
+    bad = check_basis(*nuv, want_normal=requested_normal(case["direction"]))
+    doc = documented_basis(case["direction"])
+    if doc is not None:
+        # axis letters, axis triples and explicit bases *name* u and v: the pixel coordinates are judged in that basis
+        if bad is None and any(np.linalg.norm(a - b) > 1e-9 for a, b in zip(nuv, doc)):
+            bad = "not-the-requested-basis"
+        return doc, bad
+    if bad is None and np.linalg.norm(np.cross(nuv[1], nuv[2]) - nuv[0]) > 1e-9:
+        bad = "not-right-handed"  # only the normal was given: u x v = n
+    return nuv, bad
 
 
 def execute(case, stats):
@@ -439,7 +448,7 @@ def measure(case):
     sw = sum(1 for a, b in zip(dec, dec[1:]) if a != b) if dec else 10 ** 6
     res = v["resolution"]
     npix = res * res if isinstance(res, int) else res.get("x", 256) * res.get("y", 256)
-    return (m["maxcells"], m["levelmax"], npix, len(case["layers"]), case["sched"]["T"], m["ndim"], int(case["direction"]["kind"] == "vec"),
+    return (m["maxcells"], m["levelmax"], npix, len(case["layers"]), case["sched"]["T"], m["ndim"], int(case["direction"]["kind"] in ("vec", "basis")),
             int(v["origin"] is not None), int(v["dy"] is not None), int(m["holes"] > 0) + int(bool(m.get("hole_box"))),
             int(m["unit"] != "cm") + int(v["window_unit"] != m["unit"]) + int(v["origin_unit"] != m["unit"]) + int(m["scale"] != 1.0), sw)
 
@@ -478,7 +487,7 @@ def reductions(case, viol):
         c = dict(case, sched=dict(case["sched"], T=1, policy={"kind": "seq"}))
         c.pop("decisions", None)
         yield c
-    if case["direction"]["kind"] == "vec":
+    if case["direction"]["kind"] in ("vec", "basis"):
         yield dict(case, direction={"kind": "str", "s": "z"})
     if v["dy"] is not None:
         yield dict(case, view=dict(v, dy=None))
